@@ -28,14 +28,15 @@ class Polyphase(BCheck):
                 "fields/records pass through; per sample the phase sets are pairwise disjoint intervals in position order, a set named X contains no variant left of X and "
                 "contains the variant at X whenever that variant is phased")
     rule = ("seeded scenarios: ploidy 2-4, 1 sample, 4-12 SNVs (gaps 0-25 bp, i.e. also adjacent positions), depth 2-6 per haplotype with read length 30-120 (some variants covered "
-            "only by reads seeing one variant), block-cut sensitivity 0-5, min-overlap 2-3; non-trivial = >= 2 calls phased")
+            "only by reads seeing one variant), block-cut sensitivity 0-5, min-overlap 2-3; a third of the runs with a second, read-less chromosome carrying variants at the "
+            "same coordinates with other genotypes (its records must pass through); non-trivial = >= 2 calls phased")
     budget_s = {"quick": 200, "thorough": 1800}
     chunk = 2
     parallel = True
 
     def inputs(self, tier, rng):
         for i in range(1500 if tier == "quick" else 20000):
-            yield dict(seed=rng.getrandbits(48), ploidy=[2, 3, 4, 3][i % 4], sens=i % 6, min_overlap=2 if i % 3 else 3, adjacent=(i % 2 == 0))
+            yield dict(seed=rng.getrandbits(48), ploidy=[2, 3, 4, 3][i % 4], sens=i % 6, min_overlap=2 if i % 3 else 3, adjacent=(i % 2 == 0), quiet=(i % 3 == 1))
 
     def check(self, inp):
         import logging
@@ -45,6 +46,12 @@ class Polyphase(BCheck):
         p = inp["ploidy"]
         sc = BAM.generate(r, n_samples=(1, 1), kinds=("snv",), ploidy=p, depth=(2, 6) if p < 4 else (2, 4), read_len=(30, 120), n_variants=(4, 12), hom_frac=0.1,
                           softclip=0.1, eqx=0.0, min_gap=0 if inp["adjacent"] else 6, ref_len=(250, 400))
+        if inp.get("quiet"):
+            # a second chromosome with variants at the SAME coordinates, other genotypes and no reads at all: nothing can be phased there, its records pass through
+            c0 = sc["contigs"][0]
+            sc["contigs"].append(dict(name="chr2", seq=c0["seq"], variants=[dict(v) for v in c0["variants"]]))
+            for smp in sc["samples"]:
+                sc["truth"][smp]["chr2"] = [[r.randint(0, 1) for _ in c0["variants"]] for _ in range(p)]
         d = tempfile.mkdtemp(prefix="c15_")
         try:
             paths = BAM.materialize(sc, d)
@@ -67,7 +74,12 @@ class Polyphase(BCheck):
                 return rr
             samples, recs, phase = PH.decode_phasing(out_text)
             s = samples[0]
-            seq = [(recs[ri]["pos"], phase[s][ri][0]) for ri in sorted(phase[s], key=lambda k: recs[k]["pos"])]
+            stray = [(recs[ri]["chrom"], recs[ri]["pos"]) for ri in phase[s] if recs[ri]["chrom"] == "chr2"]
+            if stray:
+                return dict(expected="no phase information on chr2 (no read covers it)", observed=str(stray), clause="quiet-chromosome")
+            first = sc["contigs"][0]["name"]
+            recs_all, recs = recs, [rec for rec in recs if rec["chrom"] == first]
+            seq = [(recs_all[ri]["pos"], phase[s][ri][0]) for ri in sorted(phase[s], key=lambda k: recs_all[k]["pos"])]
             seen = []
             for pos, ps in seq:
                 if seen and seen[-1] != ps and ps in seen:
